@@ -454,13 +454,36 @@ Proof.
   intros HP HL H. rewrite (object_rt P st id HP _ _ _ _ H). rewrite norm_len_id by exact HL. reflexivity.
 Qed.
 
-(* decrypt_object reads only these six components of the state *)
+(* decrypt_object reads only these six components of the state; of the crypt filter map it reads the look-ups *)
 Definition st_equiv (a b : estate) : Prop :=
-  es_key a = es_key b /\ es_crypt_filters a = es_crypt_filters b /\ es_stmf a = es_stmf b /\
+  es_key a = es_key b /\ (forall n, bt_get (es_crypt_filters a) n = bt_get (es_crypt_filters b) n) /\
+  es_stmf a = es_stmf b /\
   es_strf a = es_strf b /\ es_encrypt_metadata a = es_encrypt_metadata b /\ es_eff a = es_eff b.
 
 Lemma skip_object_equiv a b o : st_equiv a b -> skip_object a o = skip_object b o.
 Proof. intros [_ [_ [_ [_ [E _]]]]]. unfold skip_object. rewrite E. reflexivity. Qed.
+
+Lemma get_crypt_filter_equiv a b n : st_equiv a b -> get_crypt_filter a n = get_crypt_filter b n.
+Proof. intros [_ [Ec _]]. unfold get_crypt_filter. rewrite Ec. reflexivity. Qed.
+
+Lemma override_filter_equiv a b o : st_equiv a b -> override_filter a o = override_filter b o.
+Proof.
+  intros [_ [Ec _]]. unfold override_filter. destruct o; try reflexivity.
+  destruct (stream_filters _) as [fs|]; [|reflexivity]. destruct (position _ _) as [k|]; [|reflexivity]. f_equal.
+  match goal with |- match ?p with _ => _ end = _ => destruct p as [[]|] end; try reflexivity.
+  match goal with |- match ?p with _ => _ end = _ => destruct p as [[]|] end; try reflexivity.
+  rewrite Ec. reflexivity.
+Qed.
+
+Lemma stream_cf_equiv a b o : st_equiv a b -> stream_cf a o = stream_cf b o.
+Proof.
+  intro HE. pose proof HE as [_ [_ [Em [_ [_ Ef]]]]].
+  unfold stream_cf, embedded_file_filter, stream_filter. rewrite (override_filter_equiv a b o HE), Em, Ef.
+  destruct (override_filter b o); [reflexivity|].
+  destruct o; try apply (get_crypt_filter_equiv a b _ HE).
+  destruct (has_type _ _); [|apply (get_crypt_filter_equiv a b _ HE)].
+  destruct (es_eff b); apply (get_crypt_filter_equiv a b _ HE).
+Qed.
 
 Lemma decrypt_object_equiv P a b id : st_equiv a b -> forall o, decrypt_object P a id o = decrypt_object P b id o.
 Proof.
@@ -468,7 +491,7 @@ Proof.
   pose proof HE as [Ek [Ec [Em [Er [Ed Ef]]]]].
   induction o as [|bb|z|r|n|s h|l Hl|d Hd|d c Hd|i g] using obj_ind5;
     rewrite !decrypt_object_eq, (skip_object_equiv a b _ HE); destruct (skip_object b _); try reflexivity; cbn [dec_body].
-  - unfold string_filter, get_crypt_filter. rewrite Ek, Ec, Er. reflexivity.
+  - unfold string_filter. rewrite Ek, Er, (get_crypt_filter_equiv a b _ HE). reflexivity.
   - assert (G : dec_list P a id l = dec_list P b id l).
     { induction Hl as [|x l Hx _ IH]; [reflexivity|]. cbn [dec_list]. rewrite Hx, IH. reflexivity. }
     rewrite G. reflexivity.
@@ -477,6 +500,5 @@ Proof.
     rewrite G. reflexivity.
   - assert (G : dec_dict P a id d = dec_dict P b id d).
     { induction Hd as [|[k x] d Hx _ IH]; [reflexivity|]. cbn [dec_dict]. cbn [snd] in Hx. rewrite Hx, IH. reflexivity. }
-    rewrite G. unfold stream_cf, override_filter, embedded_file_filter, stream_filter, get_crypt_filter.
-    rewrite Ek, Ec, Em, Ef. reflexivity.
+    rewrite G, Ek, (stream_cf_equiv a b _ HE). reflexivity.
 Qed.
